@@ -47,7 +47,29 @@ def flatten(v, conds=()):
     cs = frozenset(conds)
     if any((a, not p) in cs for a, p in cs):
         return []            # a path that assumes a test both ways (the same test evaluated twice, e.g. inside a helper called twice) is infeasible
+    # a test whose value is itself a guarded alternative (`if !helper(x)` where the helper branches and returns a different test on each branch): the path
+    # splits by the helper's branch, each carrying that branch's own test — the same paths the helper's body inlined at the call site leaves
+    for a, p in cs:
+        k = a[1] if isinstance(a, tuple) and len(a) == 2 and a[0] == "if" else a
+        if isinstance(k, tuple) and len(k) == 2 and k[0] == "alt" and all(isinstance(x, tuple) and len(x) == 2 for x in k[1]):
+            rest = tuple((a2, p2) for a2, p2 in cs if (a2, p2) != (a, p))
+            out = []
+            for g, bk in k[1]:
+                gs = g[1] if isinstance(g, tuple) and len(g) == 2 and g[0] == "all" else (g,)
+                ba, bp = norm_cond(("if", bk))
+                if isinstance(ba, tuple) and ba[:2] == ("sym", "bool"):
+                    if (ba[2] == "true") != (bp if p else not bp):
+                        continue          # this branch's constant contradicts the polarity the path assumes
+                    extra = ()
+                else:
+                    extra = ((ba, bp if p else not bp),)
+                out.extend(_reflat(v, rest + tuple(norm_cond(y) for y in gs) + extra))
+            return out
     return [(cs, v)]
+
+
+def _reflat(v, lits):
+    return flatten(v, tuple(lits))          # (conditions are kept as normalised (atom, polarity) pairs; a further alternative-valued test splits again)
 
 
 def lit(v, pol=True):
@@ -105,6 +127,25 @@ def atoms(cset):
             out.add((a, p))
     for a, p in cset:
         add(a, p)
+    # unit propagation: a refuted conjunction all of whose conjuncts but one are established refutes the last one (and dually for an established disjunction) —
+    # `if !empty && n != m { return Err }` followed by a split on `empty` leaves `n == m` behind on the non-empty path
+    changed = True
+    while changed:
+        changed = False
+        for a, p in list(out):
+            if not (isinstance(a, tuple) and a[:2] in (("sym", "and"), ("sym", "or")) and p == (a[1] == "or")):
+                continue
+            want = (a[1] == "or")          # an established `or` needs one true disjunct; a refuted `and` one false conjunct
+            lits = [norm_cond(("if", d)) for d in a[2:]]
+            open_ = [(k, pp) for k, pp in lits if (k, pp) not in out and (k, not pp) not in out]
+            decided_other = [(k, pp) for k, pp in lits if (k, (pp if not want else not pp)) in out]          # conjuncts known true / disjuncts known false
+            if len(open_) == 1 and len(decided_other) == len(lits) - 1:
+                k, pp = open_[0]
+                lit_ = (k, pp if want else not pp)
+                if lit_ not in out:
+                    before = len(out)
+                    add(k if pp else ("sym", "not", k), want)
+                    changed = changed or len(out) != before
     return frozenset(out)
 
 
